@@ -277,6 +277,7 @@ structure C08St where
   sentAll : List (Nat × Nat × Nat) := []         -- (id, src, dst) of every accepted send
   recvLog : List (Nat × Nat) := []               -- (receiver, id) in receive order
   leaving : List Nat := []                       -- manually delivered: leave the queue at the next step
+  readyN : List ((Nat × Nat) × Nat) := []        -- held pair ↦ how many leading entries of its expected queue were recalled from the ready queues
   res : OResult := {}
 
 def C08St.fail (st : C08St) (ln : Nat) (msg : String) : C08St :=
@@ -306,13 +307,21 @@ def c08Step (snaps : List (Nat × List (Nat × Nat × Nat))) (ips : List (Nat ×
       let ready := (ev.filter (fun m => pairKey m.2.1 m.2.2 == k && !shown.any (·.2.2 == m.1))).map (fun m => (m.2.1, m.2.2, m.1))
       let lo : Nat := if Nat.ble (ipOf k.1) (ipOf k.2) then k.1 else k.2
       let inflight := ready.filter (·.2.1 == lo) ++ ready.filter (·.2.1 != lo) ++ shown
+      -- the recalled part keeps the order of the ready queues, which is maturation order, not send order (a
+      -- later message with a shorter latency matures first): the oracle knows it as a set only; its exact
+      -- order is pinned by the model (K compares every `links` view)
+      let st := { st with readyN := (st.readyN.filter (·.1 != k)) ++ [(k, ready.length)] }
       let st := c08SetExpect st k inflight
       { st with known := st.known ++ [k], heldMsgs := st.heldMsgs ++ inflight.map (·.2.2) }
     else st
   let doRelease := fun (st : C08St) (a b : String) =>
     let k := pairKey (hostTok a) (hostTok b)
     if !st.held.contains k then st else
-    let batch := c08Expect st k
+    let nReady := match st.readyN.find? (·.1 == k) with | some p => p.2 | none => 0
+    let all := c08Expect st k
+    let st := { st with heldMsgs := st.heldMsgs.filter (fun id => !((all.take nReady).any (·.2.2 == id))),
+                        readyN := st.readyN.filter (·.1 != k) }
+    let batch := all.drop nReady
     let st := { st with held := st.held.filter (· != k), known := st.known.filter (· != k),
                         heldMsgs := st.heldMsgs.filter (fun id => !(batch.any (·.2.2 == id))) }
     let st := c08SetExpect st k []
@@ -330,7 +339,9 @@ def c08Step (snaps : List (Nat × List (Nat × Nat × Nat))) (ips : List (Nat ×
     st.known.foldl (fun st k =>
       let want := (c08Expect st k).map (·.2.2)
       let got := (view.filter (onPair k)).map (·.2.2)
-      if want == got then st else st.fail ln s!"links view of held link {k.1}-{k.2} shows {got}, expected {want}") st
+      let n := match st.readyN.find? (·.1 == k) with | some p => p.2 | none => 0
+      let same := (want.take n).mergeSort (· ≤ ·) == (got.take n).mergeSort (· ≤ ·) && want.drop n == got.drop n
+      if same then st else st.fail ln s!"links view of held link {k.1}-{k.2} shows {got}, expected {want} (the first {n} in any order)") st
   | ["ctl", "hold", a, b] => doHold st a b true
   | [_, "net_hold", a, b] => doHold st a b false
   | ["ctl", "release", a, b] => doRelease st a b
@@ -350,6 +361,9 @@ def c08Step (snaps : List (Nat × List (Nat × Nat × Nat))) (ips : List (Nat ×
     | none => st
   | ["ctl", "step"] =>
     { st with leaving := [],
+              readyN := st.readyN.map (fun q =>
+                let ex := match st.expect.find? (·.1 == q.1) with | some p => p.2 | none => []
+                (q.1, q.2 - ((ex.take q.2).filter (fun e => st.leaving.contains e.2.2)).length)),
               expect := st.expect.map (fun p => (p.1, p.2.filter (fun e => !st.leaving.contains e.2.2))) }
   | [h, "udp_send", _, dst, hex] =>
     let st := { st with linksFresh := false }
